@@ -553,6 +553,7 @@ func (e *Engine) verifyUnit(fn *ssa.Function, extra string, setv string) {
 	st.assumeT(And(ULt(BVu(1<<32, 64), alloc0), ULt(alloc0, BVu(1<<62, 64))))
 	var args []Val
 	plainNames = true
+	plainUnique = true
 	sets := map[string]uint64{}
 	for _, kv := range strings.Split(setv, ",") {
 		if i := strings.Index(kv, "="); i > 0 {
@@ -586,6 +587,7 @@ func (e *Engine) verifyUnit(fn *ssa.Function, extra string, setv string) {
 		byName[fv.Name()] = v
 	}
 	plainNames = false
+	plainUnique = false
 	for k := range sets {
 		fail("-set names %q, which is not a parameter of %s", k, fn.Name())
 	}
@@ -603,6 +605,8 @@ func (e *Engine) verifyUnit(fn *ssa.Function, extra string, setv string) {
 		}
 		st.assumeT(raw)
 	}
+	logSpecReads = true
+	defer func() { logSpecReads = false }()
 	if req := e.findContract(fn, "requires"); req != nil {
 		rargs := append([]Val{}, args...)
 		for _, p := range req.Params[min(len(args), len(req.Params)):] {
@@ -639,6 +643,7 @@ func (e *Engine) verifyUnit(fn *ssa.Function, extra string, setv string) {
 		fail("requires of %s is unsatisfiable (vacuous contract)", fn.Name())
 	}
 	e.reqWitness = "satisfiable (checked by z3-new)"
+	logSpecReads = false
 	ens := e.findContracts(fn, "ensures")
 	if len(ens) == 0 {
 		e.warn("no ensures clause for %s", fn.Name())
